@@ -474,7 +474,7 @@ func cmdCheck(o options, prop string) int {
 			"model": r.Model, "tried": r.Tried, "replayed_on_real_code": false, "failing_member": ob.Name,
 		}
 		suffix := " no-failing-input-found"
-		if r.Model != nil {
+		if r.Model != nil || modelFreeDriver(ob) {
 			if ok, out := tryReplay(o, w, ob, r.Model); ok {
 				rp["replayed_on_real_code"] = true
 				rp["replay_output"] = out
@@ -724,7 +724,7 @@ func reportDebug(o options, mode string, r *FuncResult, obre *regexp.Regexp) {
 				fmt.Printf("        %s = %s\n", k, s.Model[k])
 			}
 		}
-		if mark == "FAIL" && s.Model != nil && os.Getenv("GOCV_REPLAY") != "" {
+		if mark == "FAIL" && (s.Model != nil || modelFreeDriver(ob)) && os.Getenv("GOCV_REPLAY") != "" {
 			ok, out := replayModel(o, ob.ctx.W, ob, s.Model)
 			fmt.Printf("        replay: failed-on-real-code=%v\n%s\n", ok, indent(out))
 		}
